@@ -281,6 +281,31 @@ def convert_panic_cases(rnd, reps=4):
     return out
 
 
+def remerge_cases(rnd, reps=12):
+    """Re-merge of a partly drained merged reader: inner = merge of 2-3 pipes, a short source that is not the last one sends its only item
+    and closes, the others send one item each, the inner reader is read (construction-time script `pre`, logged like every call) until
+    the items are out -- the short source's end is observed by the inner select in a fraction of the repetitions -- and is THEN passed to
+    MergeStreamReaders again together with another source; the outer reader and the remaining writers are driven concurrently."""
+    out = []
+    for k in (2, 3):
+        for short in range(1, k):
+            for tail in ("pipe", "array"):
+                for r in range(reps):
+                    tree = [_node("pipe", cap=3, items=[i * 10 + 1] if i == short else [i * 10 + 1, i * 10 + 2, i * 10 + 3]) for i in range(1, k + 1)]
+                    tree.append(_node("merge", src=range(1, k + 1)))
+                    inner = k + 1
+                    tree.append(_node("pipe", cap=rnd.choice([0, 1]), items=[(k + 2) * 10 + 1, (k + 2) * 10 + 2]) if tail == "pipe"
+                                else _node("array", items=[(k + 2) * 10 + 1]))
+                    tree.append(_node("merge", src=[inner, k + 2]))
+                    others = [i for i in range(1, k + 1) if i != short]
+                    ops = [{"a": short, "op": "send"}, {"a": short, "op": "closeSend"}] + [{"a": j, "op": "send"} for j in others]
+                    ops += [{"a": inner, "op": "recv"}] * k
+                    ops += [{"a": others[-1], "op": "send"}, {"a": inner, "op": "recv"}]
+                    out.append({"id": "rm%d-%d-%s-%d" % (k, short, tail, r), "mode": "conc", "shape": "remerge", "tree": tree, "ops": [],
+                                "seed": rnd.randrange(1 << 30), "pclose": 0 if r % 3 else 1, "pre": [{"at": k + 3, "ops": ops}]})
+    return out
+
+
 def burst_cases(rounds, prefix="b"):
     """Barrier driver: Pipe(1) -> Copy(n), n in 2..4; per round every copy is closed by its own goroutine, all released together; then the
     writer sends once.  One `burst` line per round, judged by StreamsObs (ObsBurst)."""
@@ -432,7 +457,7 @@ def decorate_run(shapes, rnd, *, prefix):
         nodes = []
         for name, kind in zip(sh["nodes"], sh["kinds"]):
             nodes.append({"name": name, "kind": kind, "cap": rnd.choice([0, 0, 1]), "k": rnd.choice([1, 2, 3]),
-                          "okey": sh["mode"] != "wf" and rnd.random() < 0.25, "err": 0, "pan": 0})
+                          "okey": sh["mode"] != "wf" and rnd.random() < 0.25, "err": 0, "pan": 0, "cancel": False})
         sc = {"id": "%s%d" % (prefix, i), "mode": sh["mode"], "nodes": nodes, "edges": sh["edges"],
               "branch": [branch_deco(b, rnd) for b in sh["branch"]],
               "handler": rnd.choice(["none", "none", "close", "read1", "drain"]),
@@ -480,6 +505,23 @@ def decorate_run(shapes, rnd, *, prefix):
             sc["handler"] = "none"
             sc["read"] = -1
             sc["experr"] = True
+        # cancellation arriving while the LAST step completes: a node of maximal depth whose only successor is END cancels the caller's
+        # context from inside its body; a stream-interested handler is registered; the caller stops early.  The run normally still returns
+        # its stream (if it fails with the context error the scenario is a run-failed NOTE: outside the statement).
+        if not sh["branch"] and sc["handler"] != "none" and not sc["experr"] and not any(n.get("pan") for n in nodes) and rnd.random() < 0.15:
+            depth = {"start": 0}
+            for a, b in sorted(sh["edges"], key=lambda e: (e[1] == "end", e[1], e[0])):
+                pass
+            order = ["start"] + sh["nodes"] + ["end"]
+            for x in order[1:]:
+                depth[x] = 1 + max([depth[a] for a, b in sh["edges"] if b == x] or [0])
+            last = [n for n in nodes if outs.get(n["name"]) == ["end"] and depth[n["name"]] == depth["end"] - 1]
+            if last and all(depth[a] == depth["end"] - 1 for a, b in sh["edges"] if b == "end"):
+                c = rnd.choice(last)
+                c["cancel"] = True
+                if c["kind"] != "V":
+                    c["k"], c["cap"] = rnd.choice([4, 6]), rnd.choice([0, 1])
+                sc["read"] = rnd.choice([0, 1, 1])
         if is_chain(sh) and rnd.random() < 0.8:
             prods = [n for n in nodes if n["kind"] == "S"]
             if prods:
